@@ -7,11 +7,13 @@ Open Scope Z_scope.
 (* max_connections = 2, timeout configured, internal server with max_content_length = 10, one listener *)
 Definition cfgA : config := mkCfg 2 true (mkG true 10) 1.
 
-Definition plain (cl : cl_r) : reqmsg := RHttp (mkReq PrefOk true WkNone AuthAnon cl).
+Definition plain (cl : cl_r) : reqmsg := RHttp (mkReq PrefOk true WkNone AuthAnon cl false).
+(* a method whose handler reads the declared body (PUT, PROPFIND, REPORT, ...) *)
+Definition with_body (z : Z) : reqmsg := RHttp (mkReq PrefOk true WkNone AuthAnon (ClInt z) true).
 
 (* four clients arrive, 0 and 1 send a small request, two iterations accept 0 and 1, both enter the handler *)
 Definition evs_full : list event :=
-  [EConnect 0; EConnect 0; EConnect 0; EConnect 0; ESend 0 (plain (ClInt 3)); ESend 1 (plain ClAbsent);
+  [EConnect 0; EConnect 0; EConnect 0; EConnect 0; ESend 0 (plain (ClInt 3)) true; ESend 1 (plain ClAbsent) true;
    LBuild; LSelect; LBody (Some 0); TRead 0; LBuild; LSelect; LBody (Some 0); TRead 1; LBuild]%N.
 
 Definition st_of (cfg : config) (evs : list event) : state :=
@@ -55,7 +57,7 @@ Definition evs_silent : list event :=
   [EConnect 0; EConnect 0; EConnect 0; LBuild; LSelect; LBody (Some 0); LBuild; LSelect; LBody (Some 0); LBuild]%N.
 
 Example ex_silent : exists s w rlw, reachable cfgA s /\ timeout_on cfgA = true /\ pc s = PSelect rlw false /\
-  stop s = false /\ In w (workers s) /\ w_st w = WReading /\ w_cl w = CIdle /\
+  stop s = false /\ In w (workers s) /\ waits_for_client w = true /\ w_st w = WReading /\ w_cl w = CIdle /\
   Z.of_nat (length (workers s)) = max_conn cfgA /\ backlog s <> [].
 Proof.
   exists (st_of cfgA evs_silent), (mkW 0 0 CIdle WReading), [0; 1]%N.
@@ -65,13 +67,13 @@ Qed.
 
 (* an accepted connection whose request declares 11 > 10 bytes *)
 Definition evs_large : list event :=
-  [EConnect 0; ESend 0 (plain (ClInt 11)); LBuild; LSelect; LBody (Some 0)]%N.
+  [EConnect 0; ESend 0 (plain (ClInt 11)) true; LBuild; LSelect; LBody (Some 0)]%N.
 
-Example ex_413 : exists s w r z, reachable cfgA s /\ internal (gc cfgA) = true /\ 0 < max_len (gc cfgA) /\
-  In w (workers s) /\ w_st w = WReading /\ w_cl w = CSent (RHttp r) /\ r_cl r = ClInt z /\ max_len (gc cfgA) < z /\
+Example ex_413 : exists s w r full z, reachable cfgA s /\ internal (gc cfgA) = true /\ 0 < max_len (gc cfgA) /\
+  In w (workers s) /\ w_st w = WReading /\ w_cl w = CSent (RHttp r) full /\ r_cl r = ClInt z /\ max_len (gc cfgA) < z /\
   r_pref r = PrefOk /\ r_method r = true /\ r_wk r = WkNone.
 Proof.
-  exists (st_of cfgA evs_large), (mkW 0 0 (CSent (plain (ClInt 11))) WReading), (mkReq PrefOk true WkNone AuthAnon (ClInt 11)), 11.
+  exists (st_of cfgA evs_large), (mkW 0 0 (CSent (plain (ClInt 11)) true) WReading), (mkReq PrefOk true WkNone AuthAnon (ClInt 11) false), true, 11.
   split; [apply reach_of; vm_compute; discriminate|]. vm_compute.
   repeat split; try reflexivity. left. reflexivity.
 Qed.
@@ -120,5 +122,38 @@ Proof. vm_compute. reflexivity. Qed.
 
 (* with the negative-length fix a negative declared length is answered 400 by the gate *)
 Example ex_negative_length_rejected :
-  gate (mkG true 1000) (mkReq PrefOk true WkNone AuthAnon (ClInt (-1))) = GEarly 400.
+  gate (mkG true 1000) (mkReq PrefOk true WkNone AuthAnon (ClInt (-1)) true) = GEarly 400.
 Proof. vm_compute. reflexivity. Qed.
+
+(* ---- silence in every phase of a request: both slots are held by clients the server waits for ---- *)
+(* client 0 sent a part of the request head and went silent; client 1 completed the head of a PUT declaring 5 bytes,
+   is inside the handler and the body is outstanding; client 2 waits in the queue *)
+Definition evs_phases : list event :=
+  [EConnect 0; EConnect 0; EConnect 0; EPartial 0; ESend 1 (with_body 5) false;
+   LBuild; LSelect; LBody (Some 0); LBuild; LSelect; LBody (Some 0); TRead 1; LBuild]%N.
+
+Example ex_silent_phases : exists s w0 w1, reachable cfgA s /\ timeout_on cfgA = true /\ pc s = PSelect [0; 1]%N false /\
+  stop s = false /\ length (backlog s) = 1%nat /\
+  In w0 (workers s) /\ w_st w0 = WReading /\ w_cl w0 = CPartial /\ waits_for_client w0 = true /\
+  In w1 (workers s) /\ w_st w1 = WBody /\ w_cl w1 = CSent (with_body 5) false /\ waits_for_client w1 = true /\
+  handling s = 1%nat /\ entered s = [1%N].
+Proof.
+  exists (st_of cfgA evs_phases), (mkW 0 0 CPartial WReading), (mkW 1 0 (CSent (with_body 5) false) WBody).
+  split; [apply reach_of; vm_compute; discriminate|]. vm_compute.
+  repeat split; try reflexivity; try discriminate; [left | right; left]; reflexivity.
+Qed.
+
+(* what the model then does: both time out, both slots are reaped, the waiting client is accepted; the PUT ends
+   "aborted" (500), not "handled" *)
+Example ex_silent_phases_run :
+  let r := play (cfgA, evs_phases ++ [TTimeout 0; TTimeout 1; LSelect; LBody None; LBuild; LSelect; LBody (Some 0)]%N) in
+  snd r = None /\ In (OTimedOut 0) (fst r) /\ In (OBodyTimedOut 1) (fst r) /\ In (OReaped [0; 1]%N) (fst r) /\
+  In (OAccepted 0 2) (fst r).
+Proof. vm_compute. intuition. Qed.
+
+(* silence in the MIDDLE of the body is the same state (body still incomplete); when the rest arrives the thread
+   moves on and the time-out is no longer enabled *)
+Example ex_body_completed :
+  let s := st_of cfgA (evs_phases ++ [EBody 1; TBody 1]%N) in
+  step cfgA s (TTimeout 1) = None /\ (exists s' o, step cfgA s (ERelease 1) = Some (s', o)).
+Proof. vm_compute. split; [reflexivity|]. eexists. eexists. reflexivity. Qed.
